@@ -551,6 +551,60 @@ func deepGlobCase(r *vh.Rand) *Case {
 	return c
 }
 
+// handleCase (C03): writes through the exported Target handle
+// (Cache.GetTarget(x).GnmiUpdate) next to writes through Cache.GnmiUpdate, over
+// two targets, with prefixes that name the handle's target, name no target, or
+// are nil, and with ONE prefix object -- or one whole notification object --
+// reused by the caller across notifications and across targets.
+func handleCase(r *vh.Rand) *Case {
+	c := &Case{Family: "handle", Targets: []string{"t", "u"}, Cfg: CfgJ{EventDriven: r.Chance(1, 2)}}
+	namedOnly := r.Chance(1, 3)
+	ts := int64(0)
+	n := 3 + r.Intn(7)
+	for i := 0; i < n; i++ {
+		ts += int64(r.Intn(2))
+		tgt := []string{"t", "u"}[r.Intn(2)]
+		leaf := []string{"b", "c"}[r.Intn(2)]
+		var nn *NotiJ
+		w := []int{5, 4, 3, 1, 2, 1}
+		if namedOnly { // no target-less write: K_P follows the whole history
+			w = []int{5, 0, 0, 0, 2, 1}
+		}
+		switch r.Pick(w...) {
+		case 0: // prefix names the handle's target
+			nn = updN(ts, pfx(tgt, "a"), pth(leaf), ival(int64(1+r.Intn(2))))
+		case 1: // ONE target-less prefix object shared by every such notification, whatever the handle
+			nn = updN(ts, &PathJ{Elems: elems("a")}, pth("k", leaf), ival(int64(1+r.Intn(2))))
+			nn.PfxID, nn.PfxSpare = 7, r.Intn(2)
+		case 2: // a target-less prefix of its own
+			nn = updN(ts, &PathJ{Elems: elems("a")}, pth("k", leaf), ival(int64(1+r.Intn(2))))
+		case 3: // nil prefix: the first path element is taken for the target name
+			nn = updN(ts, nil, pth("zz", "a", leaf), ival(1))
+		case 4: // a delete through the handle
+			nn = delN(ts+1, pfx(tgt, "a"), pth([]string{leaf, "*"}[r.Intn(2)]))
+		default: // a multi notification through the handle
+			nn = &NotiJ{TS: ts, Prefix: pfx(tgt, "a"), Upd: []UpdJ{{Path: pth("b"), Val: ival(3)}, {Path: pth("c"), Val: ival(3)}}}
+		}
+		o := Op{K: "updt", Tgt: tgt, N: nn}
+		if r.Chance(1, 4) { // the same write through Cache.GnmiUpdate instead (routes by prefix target)
+			o = Op{K: "upd", N: nn}
+		}
+		c.Ops = append(c.Ops, o)
+		if r.Chance(1, 5) { // the caller sends the very same notification object again, possibly to the other handle
+			o2 := o
+			o.NID, o2.NID = 100+i, 100+i
+			c.Ops[len(c.Ops)-1] = o
+			// (only a target-less notification goes to the other handle: one that names a target and is
+			// written through another target's handle is plain caller error, stored there, announced here)
+			if o2.K == "updt" && (nn.Prefix == nil || nn.Prefix.Target == "") && r.Chance(1, 2) {
+				o2.Tgt = []string{"t", "u"}[r.Intn(2)]
+			}
+			c.Ops = append(c.Ops, o2)
+		}
+	}
+	return c
+}
+
 // extremeTsCase: negative (pre-epoch) timestamps and timestamps next to
 // MinInt64 / MaxInt64, in pairs on one leaf: every comparison of the
 // discipline between timestamps more than 2^63 apart.
@@ -650,6 +704,7 @@ const c03Rule = "corpus cases (witnesses of the two defects and of the path-orig
 	"atomic<->scalar histories on one index path with equal and different first values, event-driven on and off; " +
 	"look-alike value histories (per leaf, successive updates from one pool of easily confused values: re-scaled decimals, decimals collapsing in float32/float64, leaf-lists that are prefixes of each other / differ in the last element / nested, the same number as int/uint/string/bytes/json/ascii/decimal/float/double, float vs double, +0/-0, NaN, near-equal strings); " +
 	"mixed elem/element encodings of prefix and path with siblings, then subtree / wildcard / leaf deletes and Reset; " +
+	"writes through the exported Target handle (Cache.GetTarget(x).GnmiUpdate) mixed with Cache.GnmiUpdate over two targets, with prefixes naming the handle target / no target / nil, one prefix object or one whole notification object reused across notifications and targets; " +
 	"extreme timestamps; histories whose feed is also consumed by a real subscribe.Server with 1-2 gated STREAM subscribers (held while updates of one leaf coalesce, released, identical re-delivery), inputs compared with their deep copies after every call and after the release. " +
 	"distinct = distinct (config, targets, calls); non-trivial = the callback received at least one update and one delete notification, or an accepted update was withheld"
 
@@ -952,6 +1007,13 @@ func generateC03(e *emitter, o vh.Opts) {
 	}
 	for i := 0; i < nsub; i++ {
 		e.add(subscribedCase(r.Fork()))
+	}
+	nh := 400
+	if o.Thorough() {
+		nh = 5000
+	}
+	for i := 0; i < nh; i++ {
+		e.add(handleCase(r.Fork()))
 	}
 	npair, ndeep := 300, 500
 	if o.Thorough() {
